@@ -186,6 +186,69 @@ func runSec(it *SecItem, ks *sut.KeySet, workRoot string) (res SecResult) {
 		wantContent[p] = map[string]bool{sha(c): true, sha([]byte{}): true}
 	}
 	tapeFile := filepath.Join(scratch, "attacked.tar")
+	// the write path over an altered tape: open p read-write on a private copy, write one byte twice
+	judgeWritePath := func(kind, what, p string, want map[string]bool, tape []byte) bool {
+		wdir := filepath.Join(scratch, "wp")
+		_ = os.RemoveAll(wdir)
+		_ = os.MkdirAll(wdir, 0o755)
+		defer os.RemoveAll(wdir)
+		wt := filepath.Join(wdir, "drive.tar")
+		if err := os.WriteFile(wt, tape, 0o644); err != nil {
+			return true
+		}
+		c := it.Cfg
+		wi, err := sut.OpenPaths(wt, filepath.Join(wdir, "index.sqlite"), wdir, c, ks, nil)
+		if err != nil {
+			return true
+		}
+		defer wi.Close()
+		var ierr error
+		ok, _ := sut.Watchdog(40*time.Second, func() { _, ierr = wi.FS.Initialize("/", os.ModePerm) })
+		if !ok || ierr != nil {
+			return true
+		}
+		var w1, w2, cerr error
+		var back []byte
+		ok, pan := sut.Watchdog(40*time.Second, func() {
+			f, err := wi.FS.OpenFile(p, os.O_RDWR, 0)
+			if err != nil {
+				w1 = err
+				return
+			}
+			_, w1 = f.WriteAt([]byte("Z"), 0)
+			if w1 == nil {
+				_ = f.Close()
+				return
+			}
+			_, w2 = f.WriteAt([]byte("Z"), 0)
+			cerr = f.Close()
+			if cerr == nil {
+				back, _ = sut.ReadAll(wi.FS, p)
+			}
+		})
+		if !ok {
+			add(kind, "%s: writing to %s over the altered tape did not return", what, p)
+			res.Hang = true
+			return false
+		}
+		if pan != nil {
+			add(kind, "%s: writing to %s over the altered tape panicked: %v", what, p, pan)
+			return true
+		}
+		if w1 != nil && w2 == nil && cerr == nil && len(back) > 0 {
+			// the handle accepted the retry: what it wrote back must be signed content with the one byte replaced
+			okc := false
+			for _, cnt := range files {
+				if len(cnt) == len(back) && len(cnt) > 0 && string(cnt[1:]) == string(back[1:]) {
+					okc = true
+				}
+			}
+			if !okc {
+				add(kind, "%s: the first write to %s failed (%v), the second write on the same handle succeeded and Close wrote back %s: unverified content was re-signed", what, p, w1, describe(back))
+			}
+		}
+		return true
+	}
 	// judge one attacked tape
 	judge := func(kind, what string, tape []byte) bool {
 		res.Attacks[kind]++
@@ -247,6 +310,51 @@ func runSec(it *SecItem, ks *sut.KeySet, workRoot string) (res SecResult) {
 				if info, err := ri.FS.Stat(p); err == nil && info.Size() != int64(len(got)) {
 					add(kind, "%s: restoring %s returned %d bytes without error, the accepted (signed) header says %d bytes", what, p, len(got), info.Size())
 					return true
+				}
+			}
+			// the same through the other ways a caller reads a file: exactly Stat's size in one ReadFull,
+			// and io.ReadAll (512-byte first buffer) - a verification failure must not depend on the buffer sizes
+			if info, err := ri.FS.Stat(p); err == nil && !info.IsDir() && info.Size() > 0 {
+				var exact, all []byte
+				var eerr, aerr error
+				ok, pan := sut.Watchdog(40*time.Second, func() {
+					if f, err := ri.FS.Open(p); err == nil {
+						exact = make([]byte, info.Size())
+						_, eerr = io.ReadFull(f, exact)
+						_ = f.Close()
+					} else {
+						eerr = err
+					}
+					if f, err := ri.FS.Open(p); err == nil {
+						all, aerr = io.ReadAll(f)
+						_ = f.Close()
+					} else {
+						aerr = err
+					}
+				})
+				if !ok {
+					add(kind, "%s: reading %s from the altered tape did not return", what, p)
+					res.Hang = true
+					return false
+				}
+				if pan != nil {
+					add(kind, "%s: reading %s panicked: %v", what, p, pan)
+					continue
+				}
+				if eerr == nil && !want[sha(exact)] {
+					add(kind, "%s: reading exactly the %d bytes Stat reports of %s returned %s without error; the writer never signed that content", what, info.Size(), p, describe(exact))
+					return true
+				}
+				if aerr == nil && !want[sha(all)] {
+					add(kind, "%s: io.ReadAll of %s returned %s without error; the writer never signed that content", what, p, describe(all))
+					return true
+				}
+			}
+			// a handle whose first write fails because the existing content does not verify must not
+			// accept later calls on top of that content (and re-sign it on Close)
+			if rerr != nil {
+				if !judgeWritePath(kind, what, p, want, tape) {
+					return false
 				}
 			}
 		}
